@@ -20,6 +20,21 @@ def KeyLt (b : Nat) (key : Key) : Prop := ∀ i ∈ key, (i : Nat) < b
 theorem mem_remove2 {key : Key} {x y i : Var} (h : i ∈ remove2 key x y) : i ∈ key :=
   (List.mem_filter.mp h).1
 
+theorem mem_insertU {a i : Var} {l : Key} (h : i ∈ insertU a l) : i = a ∨ i ∈ l := by
+  induction l with
+  | nil => simpa [insertU] using h
+  | cons b bs ih =>
+    unfold insertU at h
+    split at h
+    · simpa using h
+    · split at h
+      · exact Or.inr h
+      · rcases List.mem_cons.mp h with rfl | h
+        · exact Or.inr (List.mem_cons_self)
+        · rcases ih h with h | h
+          · exact Or.inl h
+          · exact Or.inr (List.mem_cons_of_mem _ h)
+
 theorem specStep_inv {n : Nat} {lam : Rat} {st st' : RSt} {key key' : Key} {s : Step}
     (hI : Inv n st) (hk : KeyLt st.next key) (h : specStep lam st key s = .ok (st', key')) :
     Inv n st' ∧ KeyLt st'.next key' ∧ st.next ≤ st'.next ∧
@@ -51,7 +66,7 @@ theorem specStep_inv {n : Nat} {lam : Rat} {st st' : RSt} {key key' : Key} {s : 
     · intro i hi
       rw [hkey] at hi
       rw [hn]
-      rcases List.mem_cons.mp hi with rfl | hi
+      rcases mem_insertU hi with rfl | hi
       · vomega
       · exact Nat.lt_succ_of_lt (hk i (mem_remove2 hi))
     · vomega
@@ -66,7 +81,7 @@ theorem specStep_inv {n : Nat} {lam : Rat} {st st' : RSt} {key key' : Key} {s : 
     · intro i hi
       rw [hkey] at hi
       rw [hn]
-      rcases List.mem_cons.mp hi with rfl | hi
+      rcases mem_insertU hi with rfl | hi
       · exact hzlt
       · exact hk i (mem_remove2 hi)
     · vomega
@@ -197,21 +212,6 @@ theorem allKeys_scaleB_aux {P : Key → Prop} (c : Rat) {q acc : Poly} (h : AllK
       (fun kv' h' => hq kv' (List.mem_cons_of_mem _ h'))
 
 theorem allKeys_nil (P : Key → Prop) : AllKeys P [] := fun _ h => by cases h
-
-theorem mem_insertU {a i : Var} {l : Key} (h : i ∈ insertU a l) : i = a ∨ i ∈ l := by
-  induction l with
-  | nil => simpa [insertU] using h
-  | cons b bs ih =>
-    unfold insertU at h
-    split at h
-    · simpa using h
-    · split at h
-      · exact Or.inr h
-      · rcases List.mem_cons.mp h with rfl | h
-        · exact Or.inr (List.mem_cons_self)
-        · rcases ih h with h | h
-          · exact Or.inl h
-          · exact Or.inr (List.mem_cons_of_mem _ h)
 
 theorem mem_squashB {i : Var} {k : Key} (h : i ∈ squashB k) : i ∈ k := by
   induction k with
